@@ -110,7 +110,7 @@ def gen_poolmix(seed, tier, o):
         if proto in ("h2", "mix"):
             st = {}
             if r.random() < 0.7:
-                st["max_concurrent_streams"] = r.choice([1, 2, 3, 10, 100, 250])
+                st["max_concurrent_streams"] = r.choice(o.get("h2_mcs", [1, 2, 3, 10, 100, 250]))
             if r.random() < 0.3:
                 st["initial_window_size"] = r.choice([1000, 16384, 65535, 200000])
             if r.random() < 0.2:
